@@ -1423,6 +1423,8 @@ func (h *ResponseHeader) setSpecialHeader(key, value []byte) bool {
 		case caseInsensitiveCompare(strConnection, key):
 			if bytes.Equal(strClose, value) {
 				h.SetConnectionClose()
+				// Connection can only be set once: drop an earlier value.
+				h.h = delAllArgsStable(h.h, b2s(key))
 			} else {
 				h.ResetConnectionClose()
 				h.setNonSpecial(key, value)
@@ -1484,6 +1486,8 @@ func (h *RequestHeader) setSpecialHeader(key, value []byte) bool {
 		case caseInsensitiveCompare(strConnection, key):
 			if bytes.Equal(strClose, value) {
 				h.SetConnectionClose()
+				// Connection can only be set once: drop an earlier value.
+				h.h = delAllArgsStable(h.h, b2s(key))
 			} else {
 				h.ResetConnectionClose()
 				h.setNonSpecial(key, value)
